@@ -11,7 +11,7 @@
     This file contains only statements closed by [exact] and their [Print Assumptions]. *)
 From Coq Require Import List NArith ZArith.
 From ApiFu Require Import Base.Sexp Syn.Ast Syn.ParserModel Syn.Printer Syn.ParserProofs Syn.Relabel
-     Syn.FrontEnd Syn.FrontEndSpec Syn.FrontEndProofs.
+     Syn.FrontEnd Syn.FrontEndSpec Syn.FrontEndProofs Syn.PositionMethods Syn.PositionProofs.
 Import ListNotations.
 
 (** Nothing outside the grammar, nothing truncated, every position exact: an accepted token
@@ -160,6 +160,24 @@ Theorem C06_value_sound_refuted_before_fix :
             layout_of (tokens_value v) (map st_tok [st0 KInt [49%N]; st0 KInt [50%N]]) = false.
 Proof. exact value_truncated_before_fix. Qed.
 
+(** Every Position() method of graphql/ast (Syn/Ast.v, Syn/PositionMethods.v: the model's [*_pos]
+    functions, compared with the real methods on every parsed tree) returns the position recorded
+    on the first token of the node's printed form ([first_pos]) — which [layout_of], hence
+    parse_sound, equates with the position of that token in the source. *)
+Theorem C06_position_methods_first_token :
+  (forall v, first_pos (tokens_value v) = Some (value_pos v)) /\
+  (forall t, first_pos (tokens_type t) = Some (ty_pos t)) /\
+  (forall x, first_pos (tokens_variable x) = Some (variable_pos x)) /\
+  (forall i, first_pos [e_ident i] = Some (ident_pos i)) /\
+  (forall a, first_pos (tokens_argument a) = Some (argument_pos a)) /\
+  (forall f, first_pos (e_ident (fst f) :: e_punct_ b_colon :: tokens_value (snd f)) = Some (object_field_pos f)) /\
+  (forall d, first_pos (tokens_directive d) = Some (directive_pos d)) /\
+  (forall vd, first_pos (tokens_vardef vd) = Some (vardef_pos vd)) /\
+  (forall ss, first_pos (tokens_selset ss) = Some (selset_pos ss)) /\
+  (forall s, first_pos (tokens_selection s) = Some (selection_pos s)) /\
+  (forall d, wf_definition d = true -> first_pos (tokens_definition d) = Some (definition_pos d)).
+Proof. exact position_methods_first_token. Qed.
+
 (** ** From BYTES: the parser model driven by the scanner model of property C07 (Syn/FrontEnd.v),
     the way parser.newParser / consumeToken drive scanner.Scanner in mode 0.
 
@@ -239,6 +257,15 @@ Theorem C06_parse_bytes_layout_insensitive : forall bs1 bs2 r1 r2 d1,
   exists d2, parse_document_bytes bs2 = Out (Some d2) [] /\ erase_document d2 = erase_document d1.
 Proof. exact parse_bytes_layout_insensitive. Qed.
 
+(** The same on the two specifications alone: texts of the lexical grammar whose Token sequences
+    agree in kind and text ([same_token_text]) — i.e. that differ only in ignored tokens and in the
+    spelling-preserving layout — are both documents or neither, with equal trees modulo positions. *)
+Theorem C06_parse_bytes_same_tokens_same_tree : forall bs1 bs2 toks1 toks2 d1,
+  lexes_to bs1 toks1 -> lexes_to bs2 toks2 -> Forall2 same_token_text toks1 toks2 ->
+  in_grammar_bytes bs1 d1 ->
+  exists d2, in_grammar_bytes bs2 d2 /\ erase_document d2 = erase_document d1.
+Proof. exact parse_bytes_same_tokens_same_tree. Qed.
+
 (** ParseValue from bytes. *)
 Theorem C06_parse_value_bytes_total : forall bs, parse_value_bytes bs <> OOF.
 Proof. exact parse_value_bytes_total. Qed.
@@ -273,6 +300,7 @@ Print Assumptions C06_roundtrip_refuted_before_fix.
 Print Assumptions C06_wide_accepted_after_fix.
 Print Assumptions C06_recursion_balanced_refuted_before_fix.
 Print Assumptions C06_value_sound_refuted_before_fix.
+Print Assumptions C06_position_methods_first_token.
 Print Assumptions C06_front_end_total.
 Print Assumptions C06_parse_document_bytes_total.
 Print Assumptions C06_parse_document_bytes_never_panics.
@@ -283,6 +311,7 @@ Print Assumptions C06_parse_bytes_pos_injective.
 Print Assumptions C06_parse_bytes_errors_inside_text.
 Print Assumptions C06_parse_bytes_error_located.
 Print Assumptions C06_parse_bytes_layout_insensitive.
+Print Assumptions C06_parse_bytes_same_tokens_same_tree.
 Print Assumptions C06_parse_value_bytes_total.
 Print Assumptions C06_parse_value_bytes_accepts_exactly.
 Print Assumptions C06_parse_value_bytes_errors_inside_text.
